@@ -87,10 +87,21 @@ Section Mon.
                        || (negb (completed (vst v c))
                            && (v_raised v || negb (started (vst v c))
                                || negb (match u with Some u' => started (vst u' c) | None => false end)))) call_nodes.
+  (* once per call: a Call macro line outside Alarm and Macro bodies (it runs at most once) that has completed without
+     failing has had the body run for it -- the completed calls of a name never outnumber the runs started of the
+     definitions of that name *)
+  Definition under_repeat (n : nat) : bool :=
+    existsb (fun a => match n_kind (nd p a) with KAlarm | KMacro _ => true | _ => false end) (ancestors p n).
+  Definition once_per_call_ok (v : view) : bool :=
+    forallb (fun nm =>
+               Nat.leb (length (filter (fun cn => Nat.eqb (snd cn) nm && negb (under_repeat (fst cn))
+                                                  && completed (vst v (fst cn)) && negb (failed (vst v (fst cn)))) call_nodes))
+                       (list_sum (map (fun mn => if Nat.eqb (snd mn) nm then run_count (vst v (fst mn)) else 0%nat) macro_nodes)))
+            (map snd call_nodes).
   Fixpoint interp_walk (u : option view) (reg : list (nat * nat)) (vs : list view) : bool :=
     match vs with
     | [] => true
-    | v :: vs' => latest_ok u v reg && undefined_ok u v && interp_walk (Some v) (fold_left reg_put (newly_defined u v) reg) vs'
+    | v :: vs' => latest_ok u v reg && undefined_ok u v && once_per_call_ok v && interp_walk (Some v) (fold_left reg_put (newly_defined u v) reg) vs'
     end.
 End Mon.
 Definition holds_b (i : input) (o : output) : bool :=
